@@ -41,9 +41,9 @@ Step ==
     /\ LET e == E IN
        CASE e.ev = "plain" -> StartPlain(e.t, e.prin, e.w, e.script, e.ttl, e.accept)
          [] e.ev = "resume_fail" ->
-                \/ Resume_TokenFail(e.t, e.s, e.prin, e.w, e.tok, e.script)
-                \/ Resume_WrongWorker(e.t, e.s, e.prin, e.w, e.tok, e.script)
-         [] e.ev = "resume_ok" -> Resume_TokenOK(e.t, e.s, e.prin, e.w, e.tok, e.script)
+                \/ Resume_TokenFail(e.t, e.s, e.prin, e.w, e.tok, e.script, e.route)
+                \/ Resume_WrongWorker(e.t, e.s, e.prin, e.w, e.tok, e.script, e.route)
+         [] e.ev = "resume_ok" -> Resume_TokenOK(e.t, e.s, e.prin, e.w, e.tok, e.script, e.route)
          [] e.ev = "delete_fail" -> Delete_TokenFail(e.t, e.s, e.prin, e.w, e.tok)
          [] e.ev = "delete_ok" -> Delete_TokenOK(e.t, e.s, e.prin, e.w, e.tok)
          [] e.ev = "get" ->
@@ -56,6 +56,10 @@ Step ==
          [] e.ev = "hbegin" ->      \* user code of a resumed request starts: it holds the lock of what it sees
                 /\ pc[e.t] = "inh" /\ rq[e.t].lk = e.saw /\ lock[e.saw] = e.t
                 /\ UNCHANGED vars
+         [] e.ev = "tick" ->        \* a Produce / Exchange call starts: it must still hold the session
+                /\ rq[e.t].lk # 0 => lock[rq[e.t].lk] = e.t
+                /\ H_Tick(e.t)
+                /\ e.saw = (IF rq[e.t].bound # 0 /\ ~rq[e.t].sclosed THEN rq[e.t].bound ELSE 0)
          [] e.ev = "open" ->
                 IF e.ok THEN Open_OK(e.t) /\ rq'[e.t].cur = e.s ELSE Open_Draining(e.t)
          [] e.ev = "open_guard" -> Open_Guard(e.t) /\ rq'[e.t].err = e.err
